@@ -177,6 +177,10 @@ def check(ctx) -> Result:
         okz = all(src(d).replace(" ", "") in ("{State([0]*circuit.n_modes):1.0}", "{State([0]*circuit.n_modes):1}") for d in dicts)
         res.add(okz, "G-vacuum-input", "zero-photon input", b.site(z[0]), b.qualname, "vacuum input returns the n_modes vacuum with probability one", "vacuum-input shortcut does not yield the circuit-mode vacuum with probability one", construct=src(z[0])[:120])
     # Sampler: empty distribution special case stores full-mode vacuum with weight 1
+    # the distribution a Sampler reports is the one of its *current* configuration (cache coherence, as in C11)
+    from ..rules import rf_cache as _rfc
+    _m = _rfc.f1_f4(ctx, res, ctx.ix.cls("Sampler"))
+    _rfc.f2_snapshot(ctx, res, _m)
     from ..rules import rz_falsy
     nz = rz_falsy.none_checks(ctx, res, "C04", rz_falsy.EMULATOR_EXTRA)
     res.floor("Z functions scanned", nz, 3)
